@@ -378,4 +378,39 @@ PROPS = {
                                     "spelling:esc-uXXXX", "member-orders", "grid:meta", "grid:colmeta", "num:nan", "num:inf"]},
         "min_evals": {"quick": 50_000, "thorough": 1_000_000},
     },
+    "C17": {
+        "quick": [phase(16, 1.0, 90)],
+        "thorough": [phase(16, 1.0, 1500)],
+        "crash_is_violation": True,
+        "rule": ("cases = random histories of C API calls (quick 16x130 histories of 60 calls, thorough 16x1250 of 200) over a pool of "
+                 "handles, every extern fn: make/is/get for every kind, push/get/set/remove/len on lists, insert/get/remove/keys/len on "
+                 "dicts, grid from rows (with meta)/len/row_at, to/from Zinc and JSON, filter parse/match_dict/first_match/match_all, "
+                 "utc/tz datetime constructors and getters, destroy; arguments valid / wrong kind / out of range / null / non-UTF-8 / "
+                 "invalid text. Every handle is mirrored by a harness-side Value on which the corresponding Rust operation is applied. "
+                 "After each call: the return value equals the model's; on failure the documented sentinel (None/null, usize::MAX, "
+                 "u32::MAX, NaN, ERR) AND a non-null last_error_message() that is cleared by reading it; on success no stale error; all "
+                 "live handles deep-equal their mirrors (strict model). evaluations = calls; distinct = distinct histories"),
+        "assumptions": ["calls go through the Rust signatures of the extern \"C\" functions, as the property says",
+                        "set_list_entry_at: the documentation says both 'set' and 'insert at'; only get(i)==entry and 'other elements keep "
+                        "their order' are asserted, not the length",
+                        "a container is never passed as its own entry (aliasing &mut/& is outside the protocol)"],
+        "require_strata": {"both": ["sequence"]},
+        "min_evals": {"quick": 100_000, "thorough": 3_000_000},
+    },
+    "C18": {
+        "quick": [phase(16, 1.0, 90), phase(8, 0.5, 120, flavour="asan")],
+        "thorough": [phase(16, 1.0, 900), phase(16, 1.0, 1500, flavour="asan"), phase(16, 1.0, 2400, flavour="miri")],
+        "crash_is_violation": True,
+        "rule": ("the C17 driver, which obeys the ownership protocol (every handle, filter and returned string destroyed exactly once by its "
+                 "destroy function; borrowed entry pointers read immediately and dropped before the container is touched again), run (a) "
+                 "natively as an abort monitor (a panic inside extern \"C\" kills the worker and is attributed through the progress marker), "
+                 "(b) under AddressSanitizer + LeakSanitizer (halt_on_error, detect_leaks) in short processes, (c) in thorough under Miri "
+                 "(3 histories of 30 calls per shard; invalid references, leaks). Null sweep: every pointer parameter of every non-destroy "
+                 "function passed as null, one at a time (92 call sites): failure sentinel + error message, live handles untouched. "
+                 "evaluations = calls; distinct = distinct histories + sweep sites"),
+        "assumptions": ["the model's bookkeeping holds only pointers it owns and frees them at teardown, so a leak inside the library is unreachable at exit and reported by LSan",
+                        "ASan's red-zone blind spots (non-adjacent overflow, reuse of the same size class) are covered only by the small Miri subset"],
+        "require_strata": {"both": ["sequence", "null-sweep", "null-sweep-completed"]},
+        "min_evals": {"quick": 100_000, "thorough": 3_000_000},
+    },
 }
